@@ -93,7 +93,7 @@ def check(prog, res, tier):
                 fails += need_ge0(st, blk.segs[0].hi - t.hi, 'more bytes than were read are appended')
                 fails += need_ge0(st, Lin.const(PAYLOAD) - (t.hi - t.lo), 'trailer bytes of a block reach the payload stream')
         # a non-empty block is always appended; only the empty read ends the refill
-        evs = [e for e in p.events if e.func == c05.READ or (e.kind == 'leave' and e.data.get('callee') == c05.READ)]
+        evs = [e for e in p.events if e.under(c05.READ) or (e.kind == 'leave' and e.data.get('callee') == c05.READ)]
         for i, e in enumerate(evs):
             if e.kind == 'read' and e.data['file'] is f:
                 nxt = next((x for x in evs[i + 1:] if (x.kind == 'setattr' and x.data['attr'] == 'buffer')
